@@ -119,7 +119,14 @@ func BeginScenario(seed uint64, jitterOn bool) {
 		reg.gs = map[int64]*gstate{}
 		reg.mutexIDs = map[any]int16{}
 	}
-	for k := range reg.gs { // (the copy is compiled with the repository's go 1.20 language level: no clear())
+	for k, g := range reg.gs { // (the copy is compiled with the repository's go 1.20 language level: no clear())
+		if g.holds > 0 && !g.done {
+			// a goroutine that holds a lock right now (a background goroutine of the library that
+			// outlives scenarios) keeps its record: forgetting the hold would let the verdict
+			// conclude that nobody holds the lock the workers are failing against
+			*g = gstate{worker: -1, holds: g.holds}
+			continue
+		}
 		delete(reg.gs, k)
 	}
 	for k := range reg.mutexIDs {
